@@ -6,7 +6,7 @@ from .common import *
 
 META = {
     'title': 'Poly: one template for & | ^ + - (ring assert, zero result of max dimension incl. empty, loop over the result dimension), ring-preserving negation, shifts, indexing/assignment, concatenation, split',
-    'expected_min': 25,
+    'expected_min': 109,
     'explanation': 'The five element-wise operators are compared with one template instantiated with their operator (sibling agreement: same ring '
                    'assert, result built as a zero list of the larger dimension, loop over res.dim, e(j) on both operands); __neg__ passes the ring; '
                    'constructor, dim/size properties, e, indices, span, iteration, equality, setitem, shifts, floordiv, split and Poly.__getitem__ are '
